@@ -1976,7 +1976,10 @@ func (sa *Application) removeAllocationInternal(allocationKey string, releaseTyp
 		if resources.IsZero(sa.allocatedPlaceholder) {
 			sa.clearPlaceholderTimer()
 			sa.hasPlaceholderAlloc = false
-			if (sa.IsCompleting() && sa.stateTimer == nil) || sa.IsFailing() || sa.IsResuming() || sa.hasZeroAllocations() {
+			// a placeholder that is swapped for its real allocation does not leave the application without
+			// allocations: the real allocation is added directly after this removal
+			swapped := releaseType == si.TerminationType_PLACEHOLDER_REPLACED && alloc.GetRelease() != nil
+			if (sa.IsCompleting() && sa.stateTimer == nil && !swapped) || sa.IsFailing() || sa.IsResuming() || (sa.hasZeroAllocations() && !swapped) {
 				removeApp = true
 				event = CompleteApplication
 				if sa.IsFailing() {
